@@ -448,7 +448,7 @@ func cmdCheck(args []string) {
 					evidenceInconclusive = append(evidenceInconclusive, msg)
 					break
 				}
-				if !sameStrings(uniqSorted(cfails), uniqSorted(nfails)) || !sameStrings(csum.Traces, ntraces) {
+				if !sameLabelSets(uniqSorted(cfails), uniqSorted(nfails)) || !sameStrings(csum.Traces, ntraces) {
 					msg := fmt.Sprintf("%s: translator validation mismatch on vector %d: engine fails=%v traces=%d native fails=%v traces=%d", e.Fn, i, uniqSorted(cfails), len(csum.Traces), uniqSorted(nfails), len(ntraces))
 					fmt.Println("INCONCLUSIVE:", msg)
 					if os.Getenv("VERIF_DEBUG") != "" {
@@ -483,7 +483,7 @@ func cmdCheck(args []string) {
 			}
 			reproduced := false
 			for _, f := range nfails {
-				if f == v.Label {
+				if labelsMatch(f, v.Label) {
 					reproduced = true
 				}
 			}
@@ -630,7 +630,7 @@ func cmdReplay(args []string) {
 	}
 	fmt.Print(raw)
 	for _, f := range fails {
-		if f == doc.Label {
+		if labelsMatch(f, doc.Label) {
 			fmt.Printf("REPRODUCED property=%s label=%s\n", doc.Property, doc.Label)
 			os.Exit(1)
 		}
@@ -641,3 +641,35 @@ func cmdReplay(args []string) {
 
 var _ = bytes.Equal
 var _ *ssa.Function
+
+// labelsMatch compares assertion labels; for panic-site labels ("name@file:line")
+// the line may differ by a few lines between the SSA position of the faulting
+// instruction and the line the Go runtime reports for a multi-line expression.
+func labelsMatch(a, b string) bool {
+	if a == b {
+		return true
+	}
+	ia, ib := strings.LastIndex(a, ":"), strings.LastIndex(b, ":")
+	if ia < 0 || ib < 0 || a[:ia] != b[:ib] || !strings.Contains(a[:ia], "@") {
+		return false
+	}
+	la, e1 := strconv.Atoi(a[ia+1:])
+	lb, e2 := strconv.Atoi(b[ib+1:])
+	if e1 != nil || e2 != nil {
+		return false
+	}
+	d := la - lb
+	return d >= -3 && d <= 3
+}
+
+func sameLabelSets(a, b []string) bool {
+	if len(a) != len(b) {
+		return false
+	}
+	for i := range a {
+		if !labelsMatch(a[i], b[i]) {
+			return false
+		}
+	}
+	return true
+}
